@@ -28,10 +28,10 @@ PKG = "yv-c08"
 
 TIERS = {
     # cfgs: exhaustive catalogues; sim: (num per worker, workers, depth); harness exploration options
-    "quick": {"cfgs": ["MC_Subshell_quick.cfg", "MC_Subshell_all1.cfg"], "sim": (100, 4, 40),
+    "quick": {"cfgs": ["MC_Subshell_quick.cfg", "MC_Subshell_all1.cfg", "MC_Subshell_trap1.cfg"], "sim": (100, 4, 40),
               "explore": ["--plans", "6", "--dfs-max", "2", "--random", "0"],
               "explore_sim": ["--plans", "8", "--dfs-max", "2", "--random", "1"]},
-    "thorough": {"cfgs": ["MC_Subshell_all2.cfg", "MC_Subshell_core3.cfg"], "sim": (2000, 4, 40),
+    "thorough": {"cfgs": ["MC_Subshell_all2.cfg", "MC_Subshell_core3.cfg", "MC_Subshell_trap2.cfg"], "sim": (2000, 4, 40),
                  "explore": ["--plans", "12", "--dfs-max", "3", "--random", "1"],
                  "explore_sim": ["--plans", "16", "--dfs-max", "3", "--random", "2"]},
 }
